@@ -166,6 +166,20 @@ theorem oGet_oInsert_self (p : Path) (v : JValue N) {orig : Orig N} (h : oHas p 
     · simp [oGet?]
     · simp [oGet?, h.1, ih h.2]
 
+theorem ne_of_oGet_none {p : Path} {orig : Orig N} (h : oGet? p orig = none) : ∀ e ∈ orig, e.1 ≠ p := by
+  induction orig with
+  | nil => intro e he; cases he
+  | cons a r ih =>
+    obtain ⟨q, w⟩ := a
+    by_cases hq : p = q
+    · simp [oGet?, hq] at h
+    · simp [oGet?, hq] at h
+      intro e he
+      simp at he
+      rcases he with rfl | he
+      · exact fun heq => hq heq.symm
+      · exact ih h e he
+
 /-! ## the walk: setDeep then restoreDeep with the single recorded entry -/
 
 theorem recordOriginal_leaf (attr : Path) {oldV : JValue N} (v : JValue N) (orig : Orig N) (h : isDict oldV = false) :
